@@ -85,6 +85,8 @@ def prologue(c):
     for r in c["reqs"]:
         if c["owner"][r] == NONE:
             lines.append("req %s %s" % (r, c["rtype"][r]))
+            if r in c.get("oneshot", []):
+                lines.append("oneshot %s 1" % r)
         else:
             lines.append("ownreq %s %s %s" % (r, c["rtype"][r], c["owner"][r]))
     return lines
@@ -93,7 +95,7 @@ def prologue(c):
 def cmd_line(c, cmd):
     op, a, b = cmd["op"], cmd["a"], cmd["b"]
     if op in ("reg", "unreg"):
-        return "%s %s %s" % (op, a, b)
+        return "x%s %s %s" % (op, a, b)
     if op == "require":
         return "require %s %s" % (a, c["rtype"][b])
     if op == "out":
@@ -275,6 +277,8 @@ def history(s, out):
     for k, (cmd, (evs, ret)) in enumerate(zip(s.cmds, out)):
         if cmd["op"] == "provide" and ret and ret[0] in ("-1", "-2"):
             continue            # the sink does not hold the request: the command did nothing
+        if cmd["op"] in ("reg", "unreg") and ret and ret[0] == "-3":
+            continue            # a one-shot request its call-back unregistered meanwhile: nothing was called
         h.append({"e": cmd["op"], "a": cmd["a"], "b": cmd["b"], "evs": vproj(evs)})
         idx.append(k)
     return h, idx
